@@ -60,6 +60,7 @@ func (r routecmd) build() []string {
 
 			var weight string
 			var ropts []string
+			var invalid bool
 			for _, o := range strings.Fields(opts) {
 				switch {
 				case o == "proto=tcp":
@@ -84,6 +85,7 @@ func (r routecmd) build() []string {
 						ropts = append(ropts, fmt.Sprintf("redirect=%s", redir[0]))
 					} else {
 						log.Printf("[ERROR] Invalid syntax for redirect: %s. should be redirect=<code>,<url>", o)
+						invalid = true
 						continue
 					}
 				default:
@@ -121,10 +123,46 @@ func (r routecmd) build() []string {
 				continue
 			}
 
+			// the command must also say what was registered: values are written
+			// verbatim, so a blank in the name or balanced quotes in a tag can
+			// still form a valid command - for another service, prefix or option
+			if invalid || !denotes(cfg, name, route, dst, svctags, ropts) {
+				log.Printf("[WARN] consul: Skipping %s tag %q of service %q: not expressible as a route command", r.prefix, tag, name)
+				continue
+			}
+
 			config = append(config, cfg)
 		}
 	}
 	return config
+}
+
+// denotes reports whether cfg is exactly one route add command for the given
+// service, prefix, destination, tags and options.
+func denotes(cfg, name, src, dst string, tags, opts []string) bool {
+	defs, err := routing.Parse(bytes.NewBufferString(cfg))
+	if err != nil || len(defs) != 1 {
+		return false
+	}
+	d := defs[0]
+	if d.Cmd != routing.RouteAddCmd || d.Service != name || d.Src != src || d.Dst != dst {
+		return false
+	}
+	if len(d.Tags) != len(tags) || len(d.Opts) != len(opts) {
+		return false
+	}
+	for i := range tags {
+		if d.Tags[i] != tags[i] {
+			return false
+		}
+	}
+	for _, o := range opts {
+		k, v, _ := strings.Cut(o, "=")
+		if got, ok := d.Opts[k]; !ok || got != v {
+			return false
+		}
+	}
+	return true
 }
 
 // parseURLPrefixTag expects an input in the form of 'tag-host/path[ opts]'
